@@ -253,7 +253,10 @@ func mapRangeInsensitive(info *types.Info, b *Body, rs *ast.RangeStmt) (string, 
 	}
 	// accumulated slices must be sorted before any other use after the loop
 	for _, o := range appendedTo {
-		if !sortedAfter(info, b, rs, o) {
+		if ok, why := sortedAfter(info, b, rs, o); !ok {
+			if why != "" {
+				return "appends to " + o.Name() + " in map order; afterwards " + o.Name() + " " + why, false
+			}
 			return "appends to " + o.Name() + " in map order without sorting it afterwards", false
 		}
 	}
@@ -333,8 +336,9 @@ func isExtremumUpdate(info *types.Info, x *ast.IfStmt, k, v types.Object) bool {
 	return check(x.Cond) && cmp == 1
 }
 
-// sortedAfter: after the range statement, the first statement mentioning o is a sort.* call on it.
-func sortedAfter(info *types.Info, b *Body, rs *ast.RangeStmt, o types.Object) bool {
+// sortedAfter: after the range statement, the first statement mentioning o is a sort.* call on it, and that call imposes a
+// total order that is a function of the elements themselves (totalOrderSort). The reason is empty when it holds.
+func sortedAfter(info *types.Info, b *Body, rs *ast.RangeStmt, o types.Object) (bool, string) {
 	rest := stmtsAfter(b, rs)
 	for _, s := range rest {
 		if !usesVar(info, s, o) {
@@ -346,19 +350,168 @@ func sortedAfter(info *types.Info, b *Body, rs *ast.RangeStmt, o types.Object) b
 		}
 		es, ok := s.(*ast.ExprStmt)
 		if !ok {
-			return false
+			return false, ""
 		}
 		c, ok := es.X.(*ast.CallExpr)
 		if !ok {
-			return false
+			return false, ""
 		}
 		fn, ok := callee(info, c).(*types.Func)
 		if !ok || fn.Pkg() == nil || (fn.Pkg().Path() != "sort" && fn.Pkg().Path() != "slices") {
+			return false, ""
+		}
+		if len(c.Args) == 0 || !usesVar(info, c.Args[0], o) {
+			return false, ""
+		}
+		if why := totalOrderSort(info, b, c, fn, o); why != "" {
+			return false, why
+		}
+		return true, ""
+	}
+	return false, ""
+}
+
+// totalOrderSort: a list that was filled in map order is independent of that order after sorting only if the sort's order is
+// total on the elements: two different elements that the comparator does not tell apart keep the order in which the map
+// happened to deliver them (sort.Slice is not even stable). Accepted: the sorts of the element type's own order (sort.Strings,
+// sort.Ints, sort.Float64s, slices.Sort) and comparators that end in the natural comparison of the two elements themselves
+// (x[i] < x[j], cmp.Compare(a, b), strings.Compare(a, b)) after any number of `if … { return … }` refinements. A comparator
+// that orders by a key computed from the elements (their length, a rendering of something they stand for) is not known to be
+// injective; it is reported. Returns "" when the order is total, else what is wrong.
+func totalOrderSort(info *types.Info, b *Body, c *ast.CallExpr, fn *types.Func, o types.Object) string {
+	name := fn.Pkg().Path() + "." + fn.Name()
+	switch name {
+	case "sort.Strings", "sort.Ints", "sort.Float64s", "slices.Sort":
+		return ""
+	}
+	isElem := func(e ast.Expr, idx types.Object) bool {
+		ix, ok := ast.Unparen(e).(*ast.IndexExpr)
+		if !ok {
 			return false
 		}
-		return len(c.Args) > 0 && usesVar(info, c.Args[0], o)
+		xid, ok1 := ast.Unparen(ix.X).(*ast.Ident)
+		iid, ok2 := ast.Unparen(ix.Index).(*ast.Ident)
+		return ok1 && ok2 && info.Uses[xid] == o && info.Uses[iid] == idx
 	}
-	return false
+	var lit *ast.FuncLit
+	if len(c.Args) >= 2 {
+		switch a := ast.Unparen(c.Args[len(c.Args)-1]).(type) {
+		case *ast.FuncLit:
+			lit = a
+		case *ast.Ident:
+			// a local defined once as a function literal
+			defs := 0
+			ast.Inspect(b.Block, func(m ast.Node) bool {
+				if as, ok := m.(*ast.AssignStmt); ok && len(as.Lhs) == len(as.Rhs) {
+					for k, l := range as.Lhs {
+						if id, ok := l.(*ast.Ident); ok && objOf(info, id) == info.Uses[a] {
+							defs++
+							lit, _ = as.Rhs[k].(*ast.FuncLit)
+						}
+					}
+				}
+				return true
+			})
+			if defs != 1 {
+				lit = nil
+			}
+		}
+	}
+	switch name {
+	case "sort.Slice", "sort.SliceStable", "slices.SortFunc", "slices.SortStableFunc":
+	default:
+		return "is sorted with " + name + ", whose order the rule cannot read"
+	}
+	if lit == nil || lit.Type.Params == nil {
+		return "is sorted with " + name + " and a comparator that is not a function literal"
+	}
+	var ps []types.Object
+	for _, f := range lit.Type.Params.List {
+		for _, n := range f.Names {
+			ps = append(ps, info.Defs[n])
+		}
+	}
+	if len(ps) != 2 || len(lit.Body.List) == 0 {
+		return "is sorted with a comparator of an unexpected shape"
+	}
+	byIndex := strings.HasPrefix(name, "sort.")
+	// locals bound once to the two elements
+	side := map[types.Object]int{}
+	if !byIndex {
+		side[ps[0]], side[ps[1]] = 1, 2
+	}
+	for _, st := range lit.Body.List {
+		as, ok := st.(*ast.AssignStmt)
+		if !ok || as.Tok != token.DEFINE || len(as.Lhs) != len(as.Rhs) {
+			continue
+		}
+		for k, l := range as.Lhs {
+			id, ok := l.(*ast.Ident)
+			if !ok {
+				continue
+			}
+			switch {
+			case byIndex && isElem(as.Rhs[k], ps[0]):
+				side[info.Defs[id]] = 1
+			case byIndex && isElem(as.Rhs[k], ps[1]):
+				side[info.Defs[id]] = 2
+			}
+		}
+	}
+	sideOf := func(e ast.Expr) int {
+		if byIndex {
+			if isElem(e, ps[0]) {
+				return 1
+			}
+			if isElem(e, ps[1]) {
+				return 2
+			}
+		}
+		if id, ok := ast.Unparen(e).(*ast.Ident); ok {
+			return side[info.Uses[id]]
+		}
+		return 0
+	}
+	natural := func(e ast.Expr) bool {
+		switch x := ast.Unparen(e).(type) {
+		case *ast.BinaryExpr:
+			switch x.Op {
+			case token.LSS, token.GTR:
+				a, bb := sideOf(x.X), sideOf(x.Y)
+				if a != 0 && bb != 0 && a != bb {
+					return true
+				}
+				// strings.Compare(a, b) < 0
+				if call, ok := ast.Unparen(x.X).(*ast.CallExpr); ok && len(call.Args) == 2 {
+					if f2, ok := callee(info, call).(*types.Func); ok && f2.Pkg() != nil && f2.Name() == "Compare" && (f2.Pkg().Path() == "strings" || f2.Pkg().Path() == "cmp") {
+						a, bb := sideOf(call.Args[0]), sideOf(call.Args[1])
+						return a != 0 && bb != 0 && a != bb
+					}
+				}
+			}
+		case *ast.CallExpr:
+			if f2, ok := callee(info, x).(*types.Func); ok && f2.Pkg() != nil && f2.Name() == "Compare" && (f2.Pkg().Path() == "strings" || f2.Pkg().Path() == "cmp") && len(x.Args) == 2 {
+				a, bb := sideOf(x.Args[0]), sideOf(x.Args[1])
+				return a != 0 && bb != 0 && a != bb
+			}
+		}
+		return false
+	}
+	last, ok := lit.Body.List[len(lit.Body.List)-1].(*ast.ReturnStmt)
+	if !ok || len(last.Results) != 1 {
+		return "is sorted with a comparator that does not end in a return"
+	}
+	if !natural(last.Results[0]) {
+		return "is sorted by `" + exprStr(last.Results[0]) + "`, a key computed from the elements and not the elements' own order: elements the key does not tell apart keep the order in which the map delivered them, and a key that renders something else (a type, a path) can order them differently from one invocation to the next"
+	}
+	for _, st := range lit.Body.List[:len(lit.Body.List)-1] {
+		switch st.(type) {
+		case *ast.IfStmt, *ast.AssignStmt, *ast.DeclStmt:
+		default:
+			return "is sorted with a comparator the rule cannot read"
+		}
+	}
+	return ""
 }
 
 // g6Freshness: printer, qualifier, types maps and generators are created per package, in newPackage only.
